@@ -13,7 +13,7 @@ import numpy as np
 
 from sim import core
 from sim.fsseam import FsSeam
-from sim.preds import (gen_level_pred, gen_position_pred, gen_value_pred, interval_accepts, interval_func, level_accepts, level_func, value_accepts,
+from sim.preds import (CALLABLE_KINDS, as_callable, gen_level_pred, gen_position_pred, gen_value_pred, interval_accepts, interval_func, level_accepts, level_func, value_accepts,
                        value_func)
 from sim.wcheck import Disk, compare_full, gen_world_params
 from checks.c01 import world_reductions
@@ -65,7 +65,9 @@ def generate(rng, tier):
         kind = rng.choice(["leaf", "few", "few"])
         preds["intervals"] = [gen_interval(rng, c, p["levelmax"], kind=kind) for c in "xyz"]
     # "again": the caller keeps the select dictionary and passes the same object to a second load (a fresh dataset of the same output)
-    return {"world": p, "preds": preds, "also": rng.choice([None, None, "part_off", "sink_off", "mesh_vars"]), "again": rng.random() < 0.3}
+    return {"world": p, "preds": preds, "also": rng.choice([None, None, "part_off", "sink_off", "mesh_vars"]), "again": rng.random() < 0.3,
+            # predicates may be any callable: plain function, functools.partial, object with __call__, bound method
+            "callable": rng.choice(CALLABLE_KINDS)}
 
 
 def describe(case):
@@ -88,11 +90,14 @@ def execute(case, stats):
             res["signature"] = None
             return res
         L = max(accepted)
-        sel = {"level": level_func(pr["level"])}
+        ck = case.get("callable")
+        if ck not in (None, "function"):
+            stats.inc("probe.predicates_given_as_" + ck)
+        sel = {"level": as_callable(level_func(pr["level"]), ck)}
         for s in pr["values"] + pr["positions"]:
-            sel[s["var"]] = value_func(s, w)
+            sel[s["var"]] = as_callable(value_func(s, w), ck)
         for s in pr.get("intervals", []):
-            sel[s["var"]] = interval_func(s, w)
+            sel[s["var"]] = as_callable(interval_func(s, w), ck)
         select = {"mesh": sel}
         if case["also"] == "part_off":
             select["part"] = False
@@ -172,7 +177,7 @@ def measure(case):
     pr = case["preds"]
     return (p["ncpu"], p["levelmax"], p["ndim"], len(pr["values"]) + len(pr["positions"]) + len(pr.get("intervals", [])), len(p["hydro_vars"]), p["maxcells"], p["nboundary"],
             int(bool(p["grav"])) + int(bool(p["rt_vars"])) + int(p["part"] is not None) + int(p["sink"] is not None),
-            int(p["units"] != [1.0, 1.0, 1.0]), int(p["ghost_p"] * 10), int(case["also"] is not None), int(pr["level"]["kind"] != "le"), int(bool(case.get("again"))))
+            int(p["units"] != [1.0, 1.0, 1.0]), int(p["ghost_p"] * 10), int(case["also"] is not None), int(pr["level"]["kind"] != "le"), int(bool(case.get("again"))) + int(case.get("callable") not in (None, "function")))
 
 
 def reductions(case, viol):
@@ -195,6 +200,8 @@ def reductions(case, viol):
         yield dict(case, also=None)
     if case.get("again"):
         yield dict(case, again=False)
+    if case.get("callable") not in (None, "function"):
+        yield dict(case, callable="function")
     if pr["level"]["kind"] != "le":
         for k in range(1, case["world"]["levelmax"] + 1):
             yield dict(case, preds=dict(pr, level={"kind": "le", "k": k}))
